@@ -370,6 +370,17 @@ def step (st : State) (j : Json) : P Json := do
     -- no path configuration uses a typed mapping or extra keys: what this driver computes with
     -- `Spil.Model.PathX` is then `Spil.Model.Path`, the model of the theorems (PathXL.*_eq)
     return result jbool (.ok (c.cfg.paths.all PathConf.plain))
+  | "c05_admissible" =>
+    -- the hypotheses of C05 on one Sid and its path, evaluated (Spec.admissibleB), together with
+    -- "the model renders that path for it"
+    let x ← sidFrom st (← field j "from")
+    let cfgName ← (match fieldOpt j "config" with | some cj => do pure (some (← str cj)) | none => pure none : P (Option Str))
+    let p ← fieldStr j "path"
+    match x, c.cfg.pathConf? cfgName with
+    | .ok x, some pc =>
+      return result jbool (.ok (Spec.admissibleB c pc x p &&
+        (match c.sidPath cfgName x with | .ok a => decide (a = some p) | .error _ => false)))
+    | _, _ => return result jbool (.ok false)
   | "spec_path_ok" =>
     -- do the path configurations follow the conventions C05 / C06 are proved under?  One pair
     -- (pathConfOk, pathsExclusive) per configured path configuration, in configuration order
